@@ -56,6 +56,7 @@ def _required(tier):
         "plans_accepted", "plans_rejected_before_yield", "blocks_yielded", "regime:lastread<skipback", "regime:gulp>nsamps",
         "regime:block_crosses_file_boundary", "regime:partial_last_block_before_eof", "regime:gulp_not_dividing",
         "regime:start>0", "regime:skipback>gulp/2", "regime:skipback>=gulp", "overlap_audits", "spy:creadinto", "spy:seek",
+        "regime:continuation_plans_on_one_reader", "regime:packed_block_over_1KiB_odd_byte_count",
     ]
 
 
@@ -98,6 +99,21 @@ def cases(tier, seed):
                 plans = [p for p, s in zip(plans, sel) if s]
             for i in range(0, len(plans), BATCH):
                 yield {"cfg": cfg, "dseed": int(seed), "plans": plans[i : i + BATCH]}
+    # --- one long narrow stream per sub-byte depth: packed blocks of more than 1 KiB whose byte count is odd
+    for nbits, nch in ((4, 2), (2, 4), (1, 8), (4, 6)):
+        yield {"cfg": {"N": 3001, "nbits": nbits, "nchans": nch, "split": [3001] if nbits != 2 else [1500, 1501]}, "dseed": int(seed) + 700 + nbits,
+               "plans": [(1027, 0, 3001, 0), (2999, 1, 3000, 0), (1031, 0, 3001, 5), (3001, 0, 3001, 0)], "alloc": "default", "long_packed": True}
+    # --- segment-wise processing on one reader: overlapping plans made of full blocks only, each continuing where the previous one stopped
+    for k in range(8 if tier == "quick" else 120):
+        g = int(rng.integers(2, 21)); sb = int(rng.integers(1, g)); m = int(rng.integers(0, 4))
+        seg = g + m * (g - sb) if k % 4 else int(rng.integers(1, g + 1))      # k%4 == 0: the whole segment fits one gulp
+        nbits = int(rng.choice(DEPTHS))
+        nch = sigfile.legal_nchans(nbits, int(rng.integers(1, 17)))
+        N = seg * int(rng.integers(3, 7)) + int(rng.integers(0, seg))
+        nfiles = int(rng.integers(1, 3))
+        split = [N] if nfiles == 1 else [N // 2, N - N // 2]
+        yield {"cfg": {"N": N, "nbits": nbits, "nchans": nch, "split": split}, "dseed": int(seed) + 800 + k, "chain": True, "alloc": "default",
+               "plans": [(g, st, min(seg, N - st), sb if g > sb else 0) for st in range(0, N, seg)]}
     # --- random plans on larger streams
     nrand = 60 if tier == "quick" else 1500
     for k in range(nrand):
@@ -285,9 +301,15 @@ def _run_plans(case, ctx, cfg, fil, Xf):
         return
     alloc = _ALLOC[case.get("alloc", "default")]
     bounds = np.cumsum(cfg["split"])[:-1].tolist()
-    for plan in case["plans"]:
+    if case.get("chain"):
+        ctx.count("regime:continuation_plans_on_one_reader")
+    if case.get("long_packed"):
+        ctx.count("regime:packed_block_over_1KiB_odd_byte_count")
+    for ip, plan in enumerate(case["plans"]):
         gulp, start, nsamps, skipback = (int(v) for v in plan)
         one = {"cfg": cfg, "dseed": case["dseed"], "plans": [list(plan)], "alloc": case.get("alloc", "default"), "relchdir": bool(case.get("relchdir"))}
+        if case.get("chain"):     # the history matters: the replay record holds every plan run on this reader so far
+            one = dict(one, plans=[list(q) for q in case["plans"][: ip + 1]], chain=True)
         check_plan(ctx, fil, Xf, cfg, bounds, gulp, start, nsamps, skipback, alloc, one)
 
 
